@@ -80,7 +80,7 @@ type sEvent struct {
 	Opt     sModelOpt `json:"opt"`
 	Scheme  string    `json:"scheme"`
 	MinCh   int       `json:"minchunk"`
-	Err     string    `json:"err"` // "" | "notfound" | "other" | "unreadable"
+	Err     string    `json:"err"` // "" | "notfound" | "loop" | "other" | "unreadable"
 	ErrText string    `json:"errtext"`
 	Missed  []string  `json:"missed"`
 	Order   []sEnt    `json:"order"`
@@ -186,6 +186,8 @@ func runSortCase(idx int, c sCase, o sOpt) sEvent {
 		ev.ErrText = err.Error()
 		if strings.Contains(err.Error(), ": not found") {
 			ev.Err = "notfound"
+		} else if strings.Contains(err.Error(), "form a loop") {
+			ev.Err = "loop" // moveRecVisiting's hard-link-loop detector
 		} else {
 			ev.Err = "other"
 		}
